@@ -182,3 +182,52 @@ def _strict(st):
         if {ast.Lt, ast.Gt} <= ops or ast.NotEq in ops:
             return True, ''
     return False, f'comparison `{norm(st.test)}` is not recognised as a strict inequality test'
+
+
+def opener_branch_agreement(ctx, clause):
+    """R-SIB: every object the opener caches as the array (the np.memmap and
+    the in-memory substitute for empty arrays) is built with the same dtype /
+    shape / order expressions, and the dtype comes from arrayinfotodtype of the
+    validated descriptor (byte order included)."""
+    from ..escape import find_opener
+    opener, mattr, fdattr = find_opener(ctx)
+    cands = []
+    for n in own_nodes(opener.node):
+        if isinstance(n, ast.Assign) and any(dotted(t) == f'self.{mattr}' for t in n.targets) and \
+                isinstance(n.value, ast.Call):
+            cands.append(n.value)
+    if len(cands) < 1:
+        raise AnalysisError('opener caches nothing')
+
+    def arg(c, kw, pos):
+        return get_arg(c, pos, kw)
+    ref = None
+    for c in cands:
+        if dotted(c.func) == 'np.memmap':
+            ref = c
+    if ref is None:
+        raise AnalysisError('opener has no np.memmap branch')
+    rd, rs, ro = arg(ref, 'dtype', 1), arg(ref, 'shape', 4), arg(ref, 'order', 5)
+    names = derived(opener.node, rd) if rd is not None else set()
+    ctx.decide(rd is not None and 'arrayinfotodtype' in names, 'R-FLOW', clause, opener, ref, 'map-dtype-from-descriptor',
+               'the memory map is created with the dtype description derived from the validated descriptor (arrayinfotodtype: numtype + byte order)',
+               detail=f'dtype={norm(rd) if rd is not None else None} does not come from arrayinfotodtype')
+    for c in cands:
+        if c is ref:
+            continue
+        pos = {'np.zeros': (1, 0, 2), 'np.empty': (1, 0, 2), 'np.ones': (1, 0, 2)}.get(dotted(c.func), (None, None, None))
+        cd, cs, co = arg(c, 'dtype', pos[0]), arg(c, 'shape', pos[1]), arg(c, 'order', pos[2])
+        same = all(a is not None and b is not None and norm(a) == norm(b) for a, b in ((cd, rd), (cs, rs), (co, ro)))
+        ctx.decide(same, 'R-SIB', clause, opener, c, f'substitute-agrees::{dotted(c.func)}',
+                   f'the in-memory substitute `{norm(c)[:50]}` is built with the same dtype / shape / order expressions as the memory map',
+                   detail=f'substitute uses dtype={norm(cd) if cd is not None else None}, shape={norm(cs) if cs is not None else None}, '
+                          f'order={norm(co) if co is not None else None} but the map uses dtype={norm(rd)}, shape={norm(rs)}, '
+                          f'order={norm(ro)}: an empty array reports another dtype/byte order than its descriptor, and later '
+                          f'appends are cast to it')
+    # what __init__ caches comes from the opened object
+    init = ctx.repo.func('Array.__init__')
+    for a in ('_dtype', '_shape', '_size'):
+        v = opener.cls.init_attr_exprs.get(a)
+        ok = isinstance(v, ast.Attribute) and v.attr == a.lstrip('_') and isinstance(v.value, ast.Name)
+        ctx.decide(ok, 'R-FLOW', clause, init, v, f'handle-cache::{a}',
+                   f'Array.__init__ caches {a} from the object the opener yields', detail=f'{a} = {norm(v) if v is not None else None}')
